@@ -7,6 +7,7 @@ pub mod c05;
 pub mod c06;
 pub mod c08;
 pub mod c11;
+pub mod c12;
 pub mod c13;
 pub mod c16;
 pub mod c17;
@@ -25,6 +26,7 @@ pub fn all() -> Vec<Prop> {
         Prop { id: "C06", run: c06::run, replay: c06::replay },
         Prop { id: "C08", run: c08::run, replay: c08::replay },
         Prop { id: "C11", run: c11::run, replay: c11::replay },
+        Prop { id: "C12", run: c12::run, replay: c12::replay },
         Prop { id: "C13", run: c13::run, replay: c13::replay },
         Prop { id: "C16", run: c16::run, replay: c16::replay },
         Prop { id: "C17", run: c17::run, replay: c17::replay },
